@@ -52,11 +52,14 @@ class Engine(object):
             s.add(CTX.pc[self._npc])
             self._npc += 1
 
-    def check(self, *extra):
+    def check(self, *extra, **kw):
         """satisfiability of facts & pc & extra -> 'sat' | 'unsat' | 'unknown'"""
         # facts may be appended while the goal term was being built: sync right before the check
         self._sync()
         s = self._solver
+        tmo = kw.get("timeout_ms")
+        if tmo:
+            s.set("timeout", tmo)
         s.push()
         for e in extra:
             s.add(e)
@@ -68,16 +71,20 @@ class Engine(object):
         if r == z3.sat:
             model = s.model()
         s.pop()
+        if tmo:
+            s.set("timeout", self.timeout_ms)
         self.last_model = model
         return str(r)
 
-    def entails(self, z):
+    def entails(self, z, timeout_ms=None):
+        """facts & pc |= z ?  (unknown counts as 'not entailed'; callers only lose precision by that)"""
         z = bz(z) if isinstance(z, bool) else z
+        z = z3.simplify(z)
         if z3.is_true(z):
             return True
         if z3.is_false(z):
-            return self.check() == "unsat"
-        return self.check(z3.Not(z)) == "unsat"
+            return self.check(timeout_ms=timeout_ms) == "unsat"
+        return self.check(z3.Not(z), timeout_ms=timeout_ms) == "unsat"
 
     # ---------------------------------------------------------------- forking
     def decide(self, z):
